@@ -1317,3 +1317,201 @@ def struct_mw_expr(rng: random.Random, n_names=4):
     if rng.random() < 0.4:
         e = ["frac", e, mk_leaf([ch[0]])] if rng.random() < 0.5 else ["prod", e, mk_leaf([names[-1]])]
     return e, "mwdistinct"
+
+
+# --------------------------------------------------------------------------------------------- set-order sensitive shapes
+#
+# Expressions whose canonical form can only be right if NO step depends on the iteration order of a Python set:
+# sibling factors that differ only inside a multi-element set-valued field (Sum.ranges, interventions), same-named
+# counterfactual children with several subscripts each, 3-4 interventions / ranges.  Used by the fresh-interpreter
+# hash-seed batches of C11 (and in-process for idempotence / presentation invariance).
+
+SETORDER_FAMILIES = ("sum_ranges", "iv_sets", "twin_children", "many_ivs", "many_ranges", "mw_sum")
+
+
+def struct_setorder(rng: random.Random, n_names=5, family=None):
+    """(expression, label): a product (sometimes a ratio) of >= 3 sibling factors from one set-order sensitive family"""
+    family = family or rng.choice(SETORDER_FAMILIES)
+    n_names = max(n_names, 5)
+    names = list(range(n_names))
+    rng.shuffle(names)
+    a, b, c, d, x = names[:5]
+    pop = rng.choice([None, None, POPS[0]])
+
+    def subsets(pool, lo, hi):
+        out = []
+        for k in range(lo, hi + 1):
+            for _ in range(6):
+                r = tuple(sorted(rng.sample(pool, min(k, len(pool)))))
+                if r not in out:
+                    out.append(r)
+        rng.shuffle(out)
+        return out
+
+    if family == "sum_ranges":      # Sum[B,C](f) * Sum[B,D](f) * Sum[C,D](f): same summand, different multi-variable ranges
+        f = rng.choice([mk_leaf([a], [b, c, d], pop=pop), mk_prod([mk_leaf([a], [b, c]), mk_leaf([b], [d])]),
+                        ["frac", mk_leaf([a, b], [c, d]), mk_leaf([b], [c])], mk_leaf([a, b, c, d], [x], pop=pop)])
+        fs = [["sum", [plain(n) for n in r], f] for r in subsets([b, c, d, x], 2, 3)[:rng.choice([3, 3, 4])]]
+    elif family == "iv_sets":       # P[X,Z](Y) * P[X,W](Y) * P[W,Z](Y): same first child, different >= 2-element subscript sets
+        stars = lambda r: [[n, rng.choice(["m", "m", "p"])] for n in r]  # noqa: E731
+        fs = [mk_leaf([a], rng.choice([[], [b]]) if b not in r else [], pop=pop, ivs=stars(r))
+              for r in subsets([b, c, d, x], 2, 3)[:rng.choice([3, 3, 4])]]
+    elif family == "twin_children":  # P(Y@(X,Z), Y@(X,W), ...): same-named children, each with >= 2 subscripts
+        ws = subsets([b, c, d, x], 2, 3)[:rng.choice([2, 3, 3])]
+        kids = [cfv(a, [[n, rng.choice(["m", "p"])] for n in r], rng.choice(["n", "n", "m"])) for r in ws]
+        rng.shuffle(kids)
+        leaf = mk_leaf(kids, pop=pop)
+        kids2 = list(kids)
+        rng.shuffle(kids2)
+        fs = [leaf, mk_leaf(kids2[:-1] or kids2, pop=pop), mk_leaf([a], ivs=[[b, "m"], [c, "m"]])]
+    elif family == "many_ivs":      # 3-4 interventions with mixed stars, siblings differing in one star / one name
+        base = [[n, rng.choice(["m", "p"])] for n in [b, c, d, x][:rng.choice([3, 4])]]
+        fs = [mk_leaf([a], pop=pop, ivs=base)]
+        for _ in range(rng.choice([2, 3])):
+            v = [list(i) for i in base]
+            k = rng.randrange(len(v))
+            if rng.random() < 0.6:
+                v[k][1] = "p" if v[k][1] == "m" else "m"
+            else:
+                v.pop(k)
+            fs.append(mk_leaf([a], pop=pop, ivs=v))
+    elif family == "many_ranges":   # sums with 3-4 ranges over sibling summands
+        r = [plain(n) for n in sorted([b, c, d, x][:rng.choice([3, 4])])]
+        fs = [["sum", r, mk_leaf([a], [b, c, d])], ["sum", r, mk_leaf([a], [b, c, x])], ["sum", r[:-1], mk_leaf([a], [b, c, d])],
+              ["sum", r[1:], mk_leaf([a], [b, c, d])]][:rng.choice([3, 4])]
+    else:                           # sums over multi-world joints (the shape of seed C11c)
+        fs = [struct_mw_sum(rng, n_names, wrap="none", pop=pop)[0] for _ in range(3)]
+    rng.shuffle(fs)
+    e = ["prod"] + _nest(rng, fs)
+    k = rng.random()
+    if k < 0.2:
+        e = ["frac", e, rng.choice(fs)]
+    elif k < 0.3:
+        e = ["sum", [plain(x), plain(d)], e]
+    return e, f"setorder:{family}"
+
+
+# --------------------------------------------------------------------------------------------- wide leaves, ordering shapes
+#
+# The type-directed generator caps a WellScoped leaf at 3 children, 2 parents, 2 interventions and the pool at 5 names; an
+# ordering is always a duplicate-free list of PLAIN variables covering every name.  New streams (the distribution of the
+# generators above is unchanged): wide leaves, and the other admissible shapes of canonicalize's `ordering` argument.
+
+def wide_leaf(rng: random.Random, n_names=8, pop=None, joint=False):
+    """a WellScoped single-world leaf with 4-6 children and/or 3-4 parents and/or 3-4 interventions (mixed stars)"""
+    names = list(range(n_names))
+    rng.shuffle(names)
+    shape = rng.choice(["children", "parents", "ivs", "all"])
+    k = rng.choice([4, 5, 6]) if shape in ("children", "all") else rng.choice([1, 2, 3])
+    m = 0 if joint else (rng.choice([3, 4]) if shape in ("parents", "all") else rng.choice([0, 1]))
+    w = rng.choice([3, 4]) if shape in ("ivs", "all") else rng.choice([0, 0, 1])
+    k = min(k, n_names - 1)
+    m = min(m, n_names - k)
+    w = min(w, n_names - k - m)
+    ch, pa, sub = names[:k], names[k:k + m], names[k + m:k + m + w]
+    ivs = [[x, rng.choice(["m", "m", "p"])] for x in sub]
+    mark = lambda: "m" if rng.random() < 0.12 else "n"  # noqa: E731
+    children = [cfv(x, ivs, mark()) for x in ch]
+    parents = [cfv(x, ivs, mark()) for x in pa]
+    rng.shuffle(children)
+    rng.shuffle(parents)
+    return mk_leaf(children, parents, pop=pop)
+
+
+def struct_wide_expr(rng: random.Random, n_names=None):
+    """(expression, label): wide leaves under Sums in every range mode, in products / fractions, conditional"""
+    n_names = n_names or rng.choice([6, 7, 8, 9])
+    for _ in range(20):
+        pop = rng.choice([None, None, POPS[0]])
+        k = rng.random()
+        if k < 0.45:
+            leaf = wide_leaf(rng, n_names, pop=pop, joint=True)
+            ch = [int(v[1]) for v in _leaf_parts(leaf)[0]]
+            others = [n for n in range(n_names) if n not in _leaf_all_names(leaf)] or [n_names]
+            mode = rng.choice(SUM_MODES)
+            if len(ch) < 2 and mode in ("subset", "partial"):
+                mode = "equal"
+            if mode == "equal":
+                r = list(ch)
+            elif mode == "superset":
+                r = list(ch) + others[:1]
+            elif mode == "subset":
+                r = rng.sample(ch, rng.randint(1, len(ch) - 1))
+            elif mode == "partial":
+                r = rng.sample(ch, rng.randint(1, len(ch) - 1)) + others[:1]
+            else:
+                r = others[:rng.choice([1, 2])]
+            if len(r) > 4:
+                r = r[:4] if mode != "equal" else r
+            e = ["sum", [plain(n) for n in sorted(set(r))], leaf]
+            w = rng.random()
+            if w < 0.25:
+                e = ["prod", e, wide_leaf(rng, n_names, pop=pop)]
+            elif w < 0.45:
+                e = ["frac", e, mk_leaf([ch[0]], pop=pop)]
+            lab = f"wide:sum:{mode}"
+        elif k < 0.75:
+            fs = [wide_leaf(rng, n_names, pop=rng.choice([None, pop])) for _ in range(rng.choice([2, 2, 3]))]
+            e = rng.choice([["prod"] + fs, ["frac", fs[0], fs[1]], ["frac", ["prod"] + fs, fs[0]]])
+            lab = "wide:prod"
+        else:
+            leaf = wide_leaf(rng, n_names, pop=pop)
+            pa = [int(v[1]) for v in _leaf_parts(leaf)[1]]
+            ch = [int(v[1]) for v in _leaf_parts(leaf)[0]]
+            r = (rng.sample(pa, rng.randint(1, len(pa))) if pa and rng.random() < 0.6 else rng.sample(ch, 1))
+            e = ["sum", [plain(n) for n in sorted(set(r))], ["prod", leaf, mk_leaf([r[0]])]]
+            lab = "wide:cond"
+        if well_scoped(e):
+            return e, lab
+    return wide_leaf(rng, n_names), "wide:leaf"
+
+
+def leaf_sizes(e):
+    """(max children, max parents, max interventions) over the leaves of `e` (generator-distribution tags)"""
+    c = p = i = 0
+    for t in subterms(e):
+        if isinstance(t, list) and t[0] in ("P", "PP"):
+            cs, ps = _leaf_parts(t)
+            c, p = max(c, len(cs)), max(p, len(ps))
+            i = max([i] + [len(v[4]) for v in list(cs) + list(ps)])
+    return c, p, i
+
+
+ORDERING_SHAPES = ("events_only", "cf_elems", "dups")
+
+
+def rand_ordering_shape(rng: random.Random, e, kind, n_names=None):
+    """an ordering (encoded variables) of one of the shapes that `rand_ordering` never produces; all cover the event names.
+    events_only: exactly the names in event position (plus a few unrelated ones) - names that occur only as subscripts or
+                 only as Sum ranges are omitted (the canonicaliser looks up event variables only);
+    cf_elems:    elements that are counterfactual / value-marked variables or Intervention objects (Sequence[str | Variable]
+                 admits them; canonical_expr_equal itself passes get_variables()); the level table is keyed by NAME;
+    dups:        repeated elements (ensure_ordering de-duplicates through a set; not an 'ordering' in the documented sense:
+                 callers treat it as malformed - 'raises or is right')"""
+    ev = sorted(event_names(e))
+    alln = sorted(set(all_names(e)) | {n for n in range(n_names or 0) if rng.random() < 0.3})
+    if kind == "events_only":
+        extra = [n for n in range((n_names or 0) + 2) if n not in alln and rng.random() < 0.3]
+        out = [plain(n) for n in ev + extra]
+    elif kind == "cf_elems":
+        out = []
+        for n in alln:
+            k = rng.random()
+            others = [m for m in alln if m != n]
+            if k < 0.3 and others:
+                out.append(cfv(n, [[rng.choice(others), rng.choice(["m", "p"])]], rng.choice(["n", "n", "m"])))
+            elif k < 0.45:
+                out.append(["v", n, rng.choice(["m", "p"]), "1", []])      # -X / +X as the DSL builds them
+            elif k < 0.55:
+                out.append(["v", n, rng.choice(["m", "p"]), "0", []])
+            else:
+                out.append(plain(n))
+            if k < 0.3 and rng.random() < 0.4:
+                out.append(plain(n))      # Y @ X next to Y: two elements with one name
+    else:
+        out = [plain(n) for n in alln]
+        for _ in range(rng.choice([1, 1, 2])):
+            if out:
+                out.insert(rng.randrange(len(out) + 1), list(rng.choice(out)))
+    rng.shuffle(out)
+    return out
